@@ -61,10 +61,9 @@ func (rn *runner) apply(op string, i int) (err error) {
 	if rec := vk.Catch(func() {
 		switch op[0] {
 		case 'S':
-			k := op[1:]
-			v := fmt.Sprintf("%s.%d", k, i+1)
-			rn.s.live().Set(nil, []byte(k), []byte(v))
-			rn.m.work[k] = v
+			k, v := opValue(op, i)
+			rn.s.live().Set(nil, []byte(k), v)
+			rn.m.work[k] = str(v)
 		case 'D':
 			k := op[1:]
 			rn.s.live().Delete(nil, []byte(k))
@@ -138,7 +137,7 @@ func fullCheckAfter(op string, thorough bool) bool {
 
 // histories enumerates every op sequence of length <= depth for config c; every node (history) is replayed from
 // scratch on a fresh DB and checked after its last op (its prefixes are nodes of their own).
-func histories(r *vk.Run, c cfg, depth int, col *collector, cn *counters) {
+func histories(r *vk.Run, c cfg, depth int, col *collector, cn *counters, ops []string) {
 	visit := func(h []string) {
 		rn, err := newRunner(c)
 		if err != nil {
@@ -167,16 +166,16 @@ func histories(r *vk.Run, c cfg, depth int, col *collector, cn *counters) {
 		for _, mm := range ms {
 			col.add(finding{mm.class, strings.Join(h, " "), c.String(), mm.detail})
 		}
-		if r.Distinct(c.String() + stateKey(rn)) {
+		if r.Distinct(c.String() + stateKey(rn)) { // (values longer than 64 bytes enter as length+hash)
 			cn.states.Add(1)
 		}
 	}
 	visit(nil)
 	var roots [][]string
-	for _, a := range opsA {
+	for _, a := range ops {
 		visit([]string{a})
 		if depth >= 2 {
-			for _, b := range opsA {
+			for _, b := range ops {
 				roots = append(roots, []string{a, b})
 			}
 		}
@@ -189,7 +188,7 @@ func histories(r *vk.Run, c cfg, depth int, col *collector, cn *counters) {
 			}
 			visit(h)
 			if len(h) < depth {
-				for _, op := range opsA {
+				for _, op := range ops {
 					rec(append(append([]string{}, h...), op))
 				}
 			}
@@ -205,7 +204,7 @@ func stateKey(rn *runner) string {
 	for ; it.Valid(); it.Next() {
 		sb.Write(it.Key())
 		sb.WriteByte(0)
-		sb.Write(it.Value())
+		writeAbbrev(&sb, it.Value())
 		sb.WriteByte(1)
 	}
 	it.Close()
@@ -316,7 +315,7 @@ func stateKeyDB(db dbm.DB) string {
 	for ; it.Valid(); it.Next() {
 		sb.Write(it.Key())
 		sb.WriteByte(0)
-		sb.Write(it.Value())
+		writeAbbrev(&sb, it.Value())
 		sb.WriteByte(1)
 	}
 	it.Close()
